@@ -33,6 +33,11 @@ macro_rules! receiver_harness {
         #[kani::proof]
         #[kani::unwind(20)]
         #[kani::stub(zeroize::optimization_barrier, noop_barrier)]
+        #[kani::stub(hkdf::HkdfExtract::new, crate::fasthkdf::stub_extract_new)]
+        #[kani::stub(hkdf::HkdfExtract::input_ikm, crate::fasthkdf::stub_input_ikm)]
+        #[kani::stub(hkdf::HkdfExtract::finalize, crate::fasthkdf::stub_finalize)]
+        #[kani::stub(hkdf::Hkdf::from_prk, crate::fasthkdf::stub_from_prk)]
+        #[kani::stub(hkdf::Hkdf::expand_multi_info, crate::fasthkdf::stub_expand_multi_info)]
         pub fn $name() {
             const MODE: u8 = $mode;
             let sk_r: u16 = kani::any();
@@ -84,6 +89,11 @@ macro_rules! sender_harness {
         #[kani::proof]
         #[kani::unwind(20)]
         #[kani::stub(zeroize::optimization_barrier, noop_barrier)]
+        #[kani::stub(hkdf::HkdfExtract::new, crate::fasthkdf::stub_extract_new)]
+        #[kani::stub(hkdf::HkdfExtract::input_ikm, crate::fasthkdf::stub_input_ikm)]
+        #[kani::stub(hkdf::HkdfExtract::finalize, crate::fasthkdf::stub_finalize)]
+        #[kani::stub(hkdf::Hkdf::from_prk, crate::fasthkdf::stub_from_prk)]
+        #[kani::stub(hkdf::Hkdf::expand_multi_info, crate::fasthkdf::stub_expand_multi_info)]
         pub fn $name() {
             const MODE: u8 = $mode;
             let bytes: [u8; RNG_CAP] = kani::any();
@@ -137,3 +147,27 @@ sender_harness!(c02_l2_sender_psk, 1);
 sender_harness!(c02_l2_sender_auth, 2);
 //@h name=c02_l2_sender_authpsk tier=quick mode=func timeout=1200 desc="same for AuthPsk mode" bounds="as Auth plus psk, psk_id 1..=2 B"
 sender_harness!(c02_l2_sender_authpsk, 3);
+
+//@h name=c02_l0_labeled_kdf_real tier=quick mode=func also=C03,C11,C01,C15 timeout=900 desc="UN-stubbed anchor: hpke's labeled_extract / labeled_expand running through the REAL hkdf and hmac crates over the model hash equal the hand-written RFC 9180 section 4 / RFC 5869 / RFC 2104 reference for arbitrary salt, suite id, ikm and info (this is what justifies replacing the hkdf crate by its functional model in the composed harnesses)" bounds="salt 0..=8 B, ikm 0..=3 B, info 0..=3 B, suite id (10 B) symbolic; L = 12 (two HKDF blocks); LinHash; unwind 20"
+#[kani::proof]
+#[kani::unwind(20)]
+pub fn c02_l0_labeled_kdf_real() {
+    use hpke::kdf::{labeled_extract, LabeledExpand};
+    let salt: [u8; 8] = kani::any();
+    let sl = any_len(8);
+    let ikm: [u8; 3] = kani::any();
+    let il = any_len(3);
+    let suite: [u8; 10] = kani::any();
+    let (prk, ctx) = labeled_extract::<LinKdf>(&salt[..sl], &suite, b"secret", &ikm[..il]);
+    let want = rfc::labeled_extract::<LinHash>(&salt[..sl], &suite, b"secret", &ikm[..il]);
+    assert!(eq_bytes(&prk, want.as_slice()));
+    let info: [u8; 3] = kani::any();
+    let nl = any_len(3);
+    let mut out = [0u8; 12];
+    let mut wout = [0u8; 12];
+    assert!(ctx.labeled_expand(&suite, b"base_nonce", &info[..nl], &mut out).is_ok());
+    assert!(rfc::labeled_expand::<LinHash>(want.as_slice(), &suite, b"base_nonce", &info[..nl], &mut wout));
+    assert!(out == wout);
+    kani::cover!(sl == 8 && il == 3 && nl == 3, "longest inputs");
+    kani::cover!(sl == 0 && il == 0 && nl == 0, "all empty");
+}
